@@ -216,11 +216,11 @@ Theorem C24_count_pair_variants : forall arg (q : query (A:=Z * Z)), q_window q 
 Proof. exact count_pair_list_gen. Qed.
 Print Assumptions C24_count_pair_variants.
 
-(* Oracle: the nested ROWNUM selects OraBuilder.SELECT writes mean the window -- except for LIMIT 0 (Findings/C24.v) *)
-Theorem C24_oracle_rownum_except_known : forall (A : Type) (w : window) (R : list A),
-  window_ok w = true -> fst w <> Some 0 -> ora_sem (ora_select (ora_section w)) R = win w R.
+(* Oracle: the nested ROWNUM selects OraBuilder.SELECT writes mean the window, LIMIT 0 included *)
+Theorem C24_oracle_rownum : forall (A : Type) (w : window) (R : list A),
+  window_ok w = true -> ora_sem (ora_select (ora_section w)) R = win w R.
 Proof. exact @ora_limit_sem. Qed.
-Print Assumptions C24_oracle_rownum_except_known.
+Print Assumptions C24_oracle_rownum.
 
 (* The merge rule.  process_query_qual does not nest a limited subquery: it extends the inner query, so an outer condition joins
    the inner WHERE and the combined window is applied afterwards (C24_merged_filter: what the code does).  That IS the nested list
